@@ -1,5 +1,6 @@
 import Jasm.Model.Pipeline
 import Jasm.Proofs.Master
+import Jasm.Proofs.Subst
 /-!
 # C13 Macro expansion is equivalent to manual inlining
 
@@ -8,22 +9,44 @@ no bookkeeping and no failure.  `C13_pass` says that one pass of the expander (`
 of `_apply_macro_recursively`) over a supported tree *is* that substitution; `C13_passes` lifts it to
 the sequential passes of `resolve_all_macros`.  Covered macro kinds: argument-less macros with a
 one-item list body (whole-item / whole-value use) and string macros (whole string, inside a name,
-or as a key with a `times` body).  Parameterised macros and the aliasing of Python objects are
-covered by the correspondence check only.
+or as a key with a `times` body), and parameterised macros with a one-item list body, for which
+the specification is the *simultaneous* substitution `substSim` of the call's bindings `callBinds`
+for the formals (the code substitutes formal by formal: `Proofs/Subst.lean` proves the two equal on
+hygienic calls).  The aliasing of Python objects is covered by the correspondence check only.
 -/
 namespace Jasm.C13
 open Jasm
 
-/-- the two macro kinds covered here -/
+/-- the three macro kinds covered here -/
 inductive MKind where
   | item (body : Y)       -- `pattern: [body]`
   | text (p : Str)        -- `pattern: "text"`
+  | param (fs : List Str) (body : Y)   -- `args: fs`, `pattern: [body]`
+
+/-- the formals of a macro, when all of them are strings -/
+def strsOf : List Y → Option (List Str)
+  | [] => some []
+  | .str s :: r => (strsOf r).map (s :: ·)
+  | _ => none
 
 def kindOf (m : Macro) : Option MKind :=
   match m.args, m.pattern with
   | none, some (.list [b]) => some (.item b)
   | none, some (.str p) => if p.isEmpty then none else some (.text p)
+  | some args, some (.list [b]) =>
+    match strsOf args with
+    | some fs => if !fs.isEmpty && noKey fs b && !fs.contains m.name then some (.param fs b) else none
+    | none => none
   | _, _ => none
+
+/-- the bindings of a call: for each formal, the value bound to the key of that name in the call node -/
+def callBinds (fs : List Str) (node : Y) : List (Str × Y) :=
+  fs.filterMap fun a => ((kvPairs node).find? (fun kv => kv.1 == .str a)).map fun kv => (a, kv.2)
+
+/-- a call is hygienic: it binds each formal at most once, and no formal occurs inside a bound value -/
+def hygCall (fs : List Str) (node : Y) : Bool :=
+  (fs.all fun a => ((kvPairs node).filter (fun kv => kv.1 == .str a)).length ≤ 1) &&
+  ((callBinds fs node).all fun av => noKey fs av.2 && noLeaf fs av.2)
 
 def keyIs (name : Str) (kv : Y × Y) : Bool := kv.1 == .str name
 
@@ -34,10 +57,12 @@ def inl (name : Str) (k : MKind) : Y → Y
     match k with
     | .item b => if s = name then b else .str s
     | .text p => if name = s ∨ isInfix name s = true then .str (replaceAll name p (s.length + 1) s) else .str s
+    | .param _ b => if s = name then b else .str s        -- a use without arguments: the body as it is
   | .dict d =>
     if d.any (keyIs name) then
       match k with
       | .item b => b
+      | .param fs b => substSim (callBinds fs (.dict d)) b
       | .text p => match d.find? (keyIs name) with
         | some (_, .dict t) => .dict [(.str p, .dict t)]
         | _ => .dict d
@@ -61,10 +86,12 @@ def supp (name : Str) (k : MKind) : Y → Bool
     match k with
     | .item _ => s = name || !(isInfix name s)        -- no use of an item macro inside a longer string
     | .text _ => true
+    | .param _ _ => s = name || !(isInfix name s)
   | .dict d =>
     if d.any (keyIs name) then
       match k with
       | .item b => truthy b
+      | .param fs _ => hygCall fs (.dict d)
       | .text _ => match d.find? (keyIs name) with
         | some (_, .dict t) => dictHas t "times"
         | _ => false
@@ -89,6 +116,9 @@ theorem kind_item {m : Macro} {b : Y} (h : kindOf m = some (.item b)) : m.args =
   split at h
   · simp at h; subst h; exact ⟨by assumption, by assumption⟩
   · split at h <;> simp at h
+  · split at h
+    · split at h <;> simp at h
+    · simp at h
   · simp at h
 
 theorem kind_text {m : Macro} {p : Str} (h : kindOf m = some (.text p)) : m.args = none ∧ m.pattern = some (.str p) ∧ p ≠ [] := by
@@ -101,6 +131,41 @@ theorem kind_text {m : Macro} {p : Str} (h : kindOf m = some (.text p)) : m.args
     · rename_i hne
       simp at h; subst h
       exact ⟨ha, hp, by intro e; simp [e] at hne⟩
+  · split at h
+    · split at h <;> simp at h
+    · simp at h
+  · simp at h
+
+theorem strsOf_eq : ∀ (args : List Y) (fs : List Str), strsOf args = some fs → args = fs.map Y.str
+  | [], fs, h => by simp [strsOf] at h; subst h; rfl
+  | .str s :: r, fs, h => by
+    simp only [strsOf, Option.map_eq_some_iff] at h
+    obtain ⟨fs', h1, h2⟩ := h
+    subst h2
+    simp [strsOf_eq r fs' h1]
+  | .int _ :: _, _, h | .bool _ :: _, _, h | .null :: _, _, h | .float _ :: _, _, h | .list _ :: _, _, h | .dict _ :: _, _, h => by
+    simp [strsOf] at h
+
+theorem kind_param {m : Macro} {fs : List Str} {b : Y} (h : kindOf m = some (.param fs b)) :
+    m.args = some (fs.map Y.str) ∧ m.pattern = some (.list [b]) ∧ fs ≠ [] ∧ noKey fs b = true ∧ m.name ∉ fs := by
+  unfold kindOf at h
+  split at h
+  · simp at h
+  · split at h <;> simp at h
+  · rename_i args b' ha hp
+    split at h
+    · rename_i fs' hfs
+      split at h
+      · rename_i hc
+        simp only [Option.some.injEq, MKind.param.injEq] at h
+        obtain ⟨rfl, rfl⟩ := h
+        simp only [Bool.and_eq_true, Bool.not_eq_true', List.isEmpty_eq_false_iff] at hc
+        refine ⟨by rw [ha, strsOf_eq args fs' hfs], hp, hc.1.1, hc.1.2, ?_⟩
+        intro hmem
+        have : fs'.contains m.name = true := by simpa using hmem
+        rw [this] at hc; exact absurd hc.2 (by simp)
+      · simp at h
+    · simp at h
   · simp at h
 
 theorem applyTree_item (m : Macro) (b : Y) (h : kindOf m = some (.item b)) (node : Y) :
@@ -127,6 +192,87 @@ theorem applySub_text (m : Macro) (p : Str) (h : kindOf m = some (.text p)) (s :
   obtain ⟨ha, hp, hne⟩ := kind_text h
   have : p.isEmpty = false := by cases p <;> simp_all
   simp [applyMacroSubstring, localPattern_noargs m _ ha, hp, bind, Except.bind, this, pure, Except.pure]
+
+theorem argsMapping_str_nil (name : Str) (fs : List Str) (h : name ∉ fs) :
+    argsMapping (.str name) (fs.map Y.str) = [] := by
+  unfold argsMapping
+  induction fs with
+  | nil => rfl
+  | cons a r ih =>
+    have hne : ¬ name = a := fun e => h (by simp [e])
+    have hr : name ∉ r := fun e => h (by simp [e])
+    simp only [List.map_cons, List.filterMap_cons, hne, if_false]
+    exact ih hr
+
+theorem getLast?_filter_le_one {α} (p : α → Bool) (l : List α) (h : (l.filter p).length ≤ 1) :
+    (l.filter p).getLast? = l.find? p := by
+  rw [← List.head?_filter]
+  cases hf : l.filter p with
+  | nil => rfl
+  | cons x xs =>
+    rw [hf] at h
+    cases xs with
+    | nil => rfl
+    | cons y ys => simp at h
+
+theorem argsMapping_dict (d : List (Y × Y)) (fs : List Str)
+    (h : (fs.all fun a => ((kvPairs (.dict d)).filter (fun kv => kv.1 == Y.str a)).length ≤ 1) = true) :
+    argsMapping (.dict d) (fs.map Y.str) = callBinds fs (.dict d) := by
+  unfold argsMapping callBinds
+  induction fs with
+  | nil => rfl
+  | cons a r ih =>
+    simp only [List.all_cons, Bool.and_eq_true, decide_eq_true_eq] at h
+    simp only [List.map_cons, List.filterMap_cons]
+    rw [getLast?_filter_le_one _ _ h.1]
+    have ihr := ih (by simpa using h.2)
+    cases hfind : (kvPairs (.dict d)).find? (fun kv => kv.1 == Y.str a) with
+    | none => simpa using ihr
+    | some kv => simpa using ihr
+
+theorem localPattern_param (m : Macro) (fs : List Str) (b : Y) (h : kindOf m = some (.param fs b)) (node : Y)
+    (hb : HygBinds fs (argsMapping node (fs.map Y.str))) :
+    localPattern m node = .ok (some (.list [substSim (argsMapping node (fs.map Y.str)) b])) := by
+  obtain ⟨ha, hp, hne, hk, _⟩ := kind_param h
+  have hemp : (fs.map Y.str).isEmpty = false := by cases fs <;> simp_all
+  have hkl : noKey fs (.list [b]) = true := by simp [noKey, noKeyL, hk]
+  have := foldl_substArg_eq_substSim fs _ hb (.list [b]) hkl
+  simp only [localPattern, ha, hemp, Bool.false_eq_true, if_false, hp, pure, Except.pure]
+  have hf : (argsMapping node (fs.map Y.str)).foldl (fun p (x : Str × Y) => substArg x.1 x.2 p) (.list [b]) =
+      (argsMapping node (fs.map Y.str)).foldl (fun p x => match x with | (a, v) => substArg a v p) (.list [b]) := rfl
+  rw [← hf, this]
+  simp [substSim, substSimL]
+
+theorem applyTree_param_str (m : Macro) (fs : List Str) (b : Y) (h : kindOf m = some (.param fs b)) :
+    applyMacroToTree m (.str m.name) = .ok b := by
+  obtain ⟨_, _, _, _, hn⟩ := kind_param h
+  have hnil := argsMapping_str_nil m.name fs hn
+  have := localPattern_param m fs b h (.str m.name) (by rw [hnil]; intro x hx; cases hx)
+  rw [hnil] at this
+  have hid : substSim [] b = b := by
+    have := foldl_substArg_eq_substSim fs [] (by intro x hx; cases hx) b (kind_param h).2.2.2.1
+    simpa using this.symm
+  simp [applyMacroToTree, this, hid, bind, Except.bind, truthy, pure, Except.pure]
+
+theorem applyTree_param_dict (m : Macro) (fs : List Str) (b : Y) (h : kindOf m = some (.param fs b)) (d : List (Y × Y))
+    (hc : hygCall fs (.dict d) = true) :
+    applyMacroToTree m (.dict d) = .ok (substSim (callBinds fs (.dict d)) b) := by
+  simp only [hygCall, Bool.and_eq_true] at hc
+  have hmap := argsMapping_dict d fs hc.1
+  have hcb : ∀ av ∈ callBinds fs (.dict d), av.1 ∈ fs := by
+    intro av hav
+    simp only [callBinds, List.mem_filterMap, Option.map_eq_some_iff] at hav
+    obtain ⟨a, ha, kv, _, rfl⟩ := hav
+    exact ha
+  have hb : HygBinds fs (argsMapping (.dict d) (fs.map Y.str)) := by
+    rw [hmap]
+    intro av hav
+    have := List.all_eq_true.mp hc.2 av hav
+    simp only [Bool.and_eq_true] at this
+    exact ⟨hcb av hav, this.1, this.2⟩
+  have := localPattern_param m fs b h (.dict d) hb
+  rw [hmap] at this
+  simp [applyMacroToTree, this, bind, Except.bind, truthy, pure, Except.pure]
 
 theorem replaceAll_self (name p : Str) (hne : name ≠ []) : replaceAll name p (name.length + 1) name = p := by
   cases name with
@@ -166,6 +312,18 @@ theorem pass_str (m : Macro) (k : MKind) (hk : kindOf m = some k) (hname : m.nam
         rw [applySub_text m p hk]
         exact ⟨true, rfl⟩
       · simp [he, hi, inl, pure, Except.pure]
+  | param fs b =>
+    simp only [supp, Bool.or_eq_true, decide_eq_true_eq, Bool.not_eq_true'] at hs
+    by_cases he : m.name = s
+    · simp only [he, if_true, inl, bind, Except.bind]
+      rw [← he, applyTree_param_str m fs b hk]
+      simp [pure, Except.pure]
+    · have hni : isInfix m.name s = false := by
+        rcases hs with h | h
+        · exact absurd h.symm he
+        · exact h
+      have hne' : ¬ s = m.name := fun e => he e.symm
+      simp [he, hni, inl, hne', pure, Except.pure]
 
 /-- the statement of one pass, for one tree -/
 def PassOK (m : Macro) (k : MKind) (t : Y) : Prop :=
@@ -287,6 +445,7 @@ theorem pass_dict (m : Macro) (k : MKind) (hk : kindOf m = some k) (d : List (Y 
     simp only [supp, hany, if_true] at hs
     cases k with
     | item b => rw [applyTree_item m b hk]; exact ⟨_, rfl⟩
+    | param fs b => rw [applyTree_param_dict m fs b hk d hs]; exact ⟨_, rfl⟩
     | text p =>
       simp only at hs ⊢
       cases hf : d.find? (keyIs m.name) with
@@ -406,6 +565,26 @@ theorem C13_uses_independent (name : Str) (k : MKind) (items₁ items₂ : List 
   | nil => rfl
   | cons y ys ih => simp [inlL, ih]
 
+/-- **parameterised macros**: two uses with different arguments are replaced by two instantiations of
+the body, each with the arguments of its own call substituted for the formals (simultaneous
+substitution at the leaves); neither use sees the other's arguments -/
+theorem C13_param_uses (name : Str) (fs : List Str) (b : Y) (d₁ d₂ : List (Y × Y))
+    (h1 : d₁.any (keyIs name) = true) (h2 : d₂.any (keyIs name) = true) :
+    inlL name (.param fs b) [.dict d₁, .dict d₂] =
+      [substSim (callBinds fs (.dict d₁)) b, substSim (callBinds fs (.dict d₂)) b] := by
+  simp [inlL, inl, h1, h2]
+
+/-- what the substitution does at a leaf: a formal becomes the call's argument, any other text stays -/
+theorem C13_param_leaf (σ : List (Str × Y)) (s : Str) :
+    substSim σ (.str s) = (match σ.lookup s with | some v => v | none => .str s) := by
+  rw [substSim]; cases List.lookup s σ <;> rfl
+
+/-- the expander's own way of instantiating a body (formal by formal, `_evaluate_args_in_macro`) is
+that simultaneous substitution whenever the call is hygienic -/
+theorem C13_param_sequential (fs : List Str) (σ : List (Str × Y)) (hσ : HygBinds fs σ) (b : Y) (hb : noKey fs b = true) :
+    σ.foldl (fun p av => substArg av.1 av.2 p) b = substSim σ b :=
+  foldl_substArg_eq_substSim fs σ hσ b hb
+
 /-- macros of extra macro files are put in front of the rule's own macros, in file order -/
 theorem C13_files (d : List (Y × Y)) (mds : List (M Y)) (s : Config) (macros extra : List Y) (fl_s : Config) (u : Unit)
     (hcfg : loadConfig ((dictGet d "config").getD (.dict [])) s = (fl_s, .ok u))
@@ -432,5 +611,22 @@ example : resolveAllMacros
     = .ok (.dict [(.str "$and".toList, .list [
         .dict [(.str "$or".toList, .list [.str "mov".toList, .str "lea".toList])],
         .dict [(.str "$or".toList, .list [.str "mov".toList, .str "lea".toList])], .str "xleay".toList])]) := by rfl
+
+/-- non-vacuity (tests): a parameterised macro used twice with different arguments, in both call forms -/
+example : resolveAllMacros
+    [.dict [(.str "name".toList, .str "@m".toList), (.str "args".toList, .list [.str "reg".toList]),
+            (.str "pattern".toList, .list [.dict [(.str "mov".toList, .list [.str "reg".toList, .str "reg".toList])]])]]
+    (.dict [(.str "$and".toList, .list [
+        .dict [(.str "@m".toList, .dict [(.str "reg".toList, .str "rax".toList)])],
+        .dict [(.str "@m".toList, .null), (.str "reg".toList, .str "rbx".toList)]])])
+    = .ok (.dict [(.str "$and".toList, .list [
+        .dict [(.str "mov".toList, .list [.str "rax".toList, .str "rax".toList])],
+        .dict [(.str "mov".toList, .list [.str "rbx".toList, .str "rbx".toList])]])]) := by rfl
+
+example : kindOf ⟨"@m".toList, some [.str "reg".toList],
+    some (.list [.dict [(.str "mov".toList, .list [.str "reg".toList, .str "reg".toList])]])⟩ =
+    some (.param ["reg".toList] (.dict [(.str "mov".toList, .list [.str "reg".toList, .str "reg".toList])])) := by rfl
+
+example : hygCall ["reg".toList] (.dict [(.str "@m".toList, .dict [(.str "reg".toList, .str "rax".toList)])]) = true := by decide
 
 end Jasm.C13
